@@ -108,6 +108,7 @@ namespace {
       const ipr::String* intern(const U8& w)
       {
          cur_wit = &wit;
+         opt.kick();          // one request is the unit of work the hang watchdog times (a job may be 10^5 requests under a one-bucket hash)
          scratch.assign(w.size() + 5, u8'#');
          if (not w.empty()) std::memcpy(scratch.data() + 3, w.data(), w.size());
          const ipr::String& s = pool.intern(word_view(scratch.data() + 3, w.size()));
